@@ -40,9 +40,15 @@ def _run_chunk(args):
             from sqllineage.config import SQLLineageConfig
             with SQLLineageConfig(DEFAULT_SCHEMA=ds):
                 o = col_drv.flow(sql, dia, metadata=md or None)
+        elif j.get("mech") in ("scope_without_the_key", "scope_sets_empty"):
+            # a scope that does not set the default schema (whatever earlier scopes of this thread did) / that sets it to "" (whatever
+            # the environment says): no default is in force inside it
+            from sqllineage.config import SQLLineageConfig
+            with (SQLLineageConfig(TSQL_NO_SEMICOLON=False) if j["mech"] == "scope_without_the_key" else SQLLineageConfig(DEFAULT_SCHEMA="")):
+                o = col_drv.flow(sql, dia, metadata=md or None)
         else:
             o = col_drv.flow(sql, dia, metadata=md or None)
-        if ds:
+        if ds and not j.get("keep_names"):
             # projection: names under the (fresh) default schema are written back as the placeholder the specification uses
             def back(n):
                 if isinstance(n, str) and n.startswith(ds + "."):
